@@ -38,12 +38,17 @@ TRUSTED = [
     'the page part of volume() (page_size * page_count) is SQLite-internal: an oracle input recorded from the implementation; every '
     'theorem quantifies over all its values',
     'FanoutCache: size_limit / shards is the exact rational in the model; Python rounds it to binary64 (checked per shard by the monitor)',
+    'bulk removals under contention: a raw sqlite3 connection executing BEGIN IMMEDIATE on every shard database stands for another client holding the '
+    'write lock; it is taken and released from a sched.Tracer hook on the BEGIN statements of the calling thread (timeout 0, so a busy BEGIN fails at once)',
 ]
 ASSUMPTIONS = [
     'single client (C05/C06 cover concurrent writers); clock frozen within one call; clock and ttl values on the 2^-10 s grid',
     'rowids are distinct (INTEGER PRIMARY KEY): stated as wf and proved invariant for every reachable model state',
     'an item whose expire_time equals the clock is treated as expired by the monitor (get does); _cull itself removes only expire_time < now',
     'cull_limit >= 0 in generated configurations (a negative LIMIT means no limit in SQLite; C09_bound is stated for >= 0)',
+    'persistent containers: Deque.fromcache / Index.fromcache are exercised over a Cache the caller opened with eviction_policy="none" (the policy of a cache '
+    'handed to fromcache is the caller\'s choice); size_limit, cull_limit and disk_min_file_size of the container\'s cache are lowered with Cache.reset',
+    'single client except for the bulk-removal contention cases, where the second client only holds locks (it writes nothing)',
 ]
 
 POLICIES = ['least-recently-stored', 'least-recently-used', 'least-frequently-used', 'none']
@@ -786,6 +791,440 @@ def witnesses(res):
 
 
 # ---------------------------------------------------------------------------
+# "policy 'none' (used by Deque and Index) never evicts": every way of obtaining a persistent container, driven to and
+# beyond a small size limit
+
+
+CONTAINER_WAYS = [
+    # (way, kind)
+    ('Deque(directory=d)', 'deque'),
+    ('Deque(iterable, directory=d)', 'deque'),
+    ('Deque.fromcache(Cache(d, eviction_policy="none"))', 'deque'),
+    ('FanoutCache.deque(name)', 'deque'),
+    ('DjangoCache.deque(name)', 'deque'),
+    ('Index(d)', 'index'),
+    ('Index(d, pairs)', 'index'),
+    ('Index.fromcache(Cache(d, eviction_policy="none"))', 'index'),
+    ('FanoutCache.index(name)', 'index'),
+    ('DjangoCache.index(name)', 'index'),
+    ('FanoutCache.cache(name, eviction_policy="none")', 'cache'),
+]
+CONTAINER_KIND = dict(CONTAINER_WAYS)
+
+
+def _cvalue(desc):
+    t, n = desc
+    if t == 't':
+        return chr(97 + n % 26) * n
+    if t == 'b':
+        return bytes([65 + n % 26]) * n
+    return n
+
+
+def _obtain(way, d, name, first):
+    """Returns (container, closers): the container obtained in the named way over directory d (`first`: the directory is new)."""
+    init = [_cvalue(('t', 40)), 7] if first else []
+    if way == 'Deque(directory=d)':
+        c = diskcache.Deque(directory=d)
+        return c, [c.cache], []
+    if way == 'Deque(iterable, directory=d)':
+        c = diskcache.Deque(init, directory=d)
+        return c, [c.cache], init
+    if way == 'Deque.fromcache(Cache(d, eviction_policy="none"))':
+        cache = diskcache.Cache(d, eviction_policy='none')
+        return diskcache.Deque.fromcache(cache, init), [cache], init
+    if way == 'Index(d)':
+        c = diskcache.Index(d)
+        return c, [c.cache], []
+    if way == 'Index(d, pairs)':
+        pairs = [('init%d' % i, v) for i, v in enumerate(init)]
+        c = diskcache.Index(d, pairs)
+        return c, [c.cache], pairs
+    if way == 'Index.fromcache(Cache(d, eviction_policy="none"))':
+        cache = diskcache.Cache(d, eviction_policy='none')
+        pairs = [('init%d' % i, v) for i, v in enumerate(init)]
+        return diskcache.Index.fromcache(cache, pairs), [cache], pairs
+    if way.startswith('FanoutCache.'):
+        parent = diskcache.FanoutCache(d, shards=2)
+    elif way.startswith('DjangoCache.'):
+        from diskcache.djangocache import DjangoCache
+        parent = DjangoCache(d, {'SHARDS': 2})
+    else:
+        raise ValueError(way)
+    meth = way.split('.')[1].split('(')[0]
+    if meth == 'cache':
+        c = parent.cache(name, eviction_policy='none')
+        return c, [c, parent], []
+    c = getattr(parent, meth)(name)
+    return c, [c.cache, parent], []
+
+
+def _contents(kind, c):
+    if kind == 'deque':
+        return list(c)
+    if kind == 'index':
+        return list(c.items())
+    return [(k, c[k]) for k in c]
+
+
+def container_case(case, d):
+    """One persistent container, obtained as case['way'], with its size limit lowered to volume(empty) + case['rel']:
+    the effective policy must be 'none' (object and Settings table), and however many items are stored -- far beyond the
+    limit -- nothing stored may disappear across a write or an explicit cull(), also after the container is obtained again.
+    Returns (hits, info)."""
+    way, name = case['way'], case.get('name', 'jobs')
+    kind = CONTAINER_KIND[way]
+    hits = []
+    info = {'writes': 0, 'writes_at_or_over_limit': 0, 'rows': 0}
+    clock = instr.Clock(1000.0)
+    with instr.Installed(clock):
+        c, closers, init = _obtain(way, d, name, True)
+        cache = c if kind == 'cache' else c.cache
+        directory = cache.directory
+
+        def settings_policy():
+            con = sqlite3.connect(os.path.join(directory, 'cache.db'))
+            try:
+                ((p,),) = con.execute('SELECT value FROM Settings WHERE key = "eviction_policy"').fetchall()
+                return p
+            finally:
+                con.close()
+
+        def policy_check(when):
+            got, db = cache.eviction_policy, settings_policy()
+            if got != 'none' or db != 'none':
+                hits.append(('container_policy:%s' % kind,
+                             '%s %s: the cache behind the %s has eviction_policy %r (Settings table %r), expected "none"'
+                             % (way, when, kind, got, db)))
+        policy_check('(new directory)')
+        limit = cache.volume() + case['rel']
+        cache.reset('size_limit', limit)
+        cache.reset('cull_limit', case['cull_limit'])
+        cache.reset('disk_min_file_size', case['min_file_size'])
+        ref = list(init)
+        try:
+            for i, desc in enumerate(case['vals']):
+                clock.advance(TICK)
+                if i == case.get('reopen_at'):
+                    for x in closers:
+                        x.close()
+                    c, closers, _ = _obtain(way, d, name, False)
+                    cache = c if kind == 'cache' else c.cache
+                    policy_check('(obtained again over the existing directory)')
+                v = _cvalue(desc)
+                if kind == 'deque':
+                    if desc[1] % 3 == 0:
+                        c.appendleft(v)
+                        ref.insert(0, v)
+                    else:
+                        c.append(v)
+                        ref.append(v)
+                elif kind == 'index':
+                    c['k%d' % i] = v
+                    ref.append(('k%d' % i, v))
+                else:
+                    c.set('k%d' % i, v)
+                    ref.append(('k%d' % i, v))
+                info['writes'] += 1
+                vol = independent_volume(directory)
+                if vol >= limit:
+                    info['writes_at_or_over_limit'] += 1
+                con = sqlite3.connect(os.path.join(directory, 'cache.db'))
+                try:
+                    ((nrows,),) = con.execute('SELECT COUNT(*) FROM Cache').fetchall()
+                finally:
+                    con.close()
+                if nrows != len(ref) or i == len(case['vals']) - 1:
+                    got = _contents(kind, c)
+                    if got != ref:
+                        missing = [x for x in ref if x not in got]
+                        hits.append(('container_lost_items:%s' % kind,
+                                     '%s, size_limit = volume(empty) + %d = %d, cull_limit %d: after %d stores (volume now %d) the %s holds %d of the '
+                                     '%d items stored; first missing: %s' % (way, case['rel'], limit, case['cull_limit'], i + 1, vol, kind, len(got),
+                                                                            len(ref), repr(missing[0])[:60] if missing else 'none (order differs)')))
+                        break
+            if not hits:
+                n = cache.cull()
+                got = _contents(kind, c)
+                if n != 0 or got != ref:
+                    hits.append(('container_cull_removed:%s' % kind,
+                                 '%s, size_limit %d, volume %d: cull() on the cache behind the %s returned %r and left %d of %d items'
+                                 % (way, limit, independent_volume(directory), kind, n, len(got), len(ref))))
+            info['rows'] = len(ref)
+        finally:
+            for x in closers:
+                try:
+                    x.close()
+                except Exception:
+                    pass
+    return hits, info
+
+
+def container_cases(rng, quick):
+    out = []
+    reps = 2 if quick else 6
+    for rep in range(reps):
+        for way, kind in CONTAINER_WAYS:
+            mfs = rng.choice([8, 8, 32768])
+            n = rng.choice([30, 45]) if quick else rng.choice([40, 80, 160])
+            vals = []
+            for i in range(n):
+                t = rng.choice('ttbbi')
+                vals.append((t, rng.choice([10, 20, 30, 50, 80, 300, 900, 2500]) if t != 'i' else rng.randrange(1000)))
+            if mfs == 32768:
+                vals[rng.randrange(n)] = ('b', 40000)
+            out.append({'check': 'container', 'way': way, 'name': rng.choice(['jobs', 'a/b', 'x']), 'rel': rng.choice([60, 100, 300, 4096]),
+                        'cull_limit': rng.choice([1, 2, 10, 10]), 'min_file_size': mfs, 'vals': vals,
+                        'reopen_at': rng.choice([None, n // 2, n // 3])})
+    return out
+
+
+def container_checks(ctx, res, stats, cases):
+    seen = set(v.sig for v in res.violations)
+    st = stats.setdefault('containers', {'cases': 0, 'stores': 0, 'stores_at_or_over_size_limit': 0, 'ways': {}})
+    for case in cases:
+        d = os.path.join(ctx.scratch('c09c'), 'c')
+        try:
+            hits, info = container_case(case, d)
+        except Exception as e:  # noqa
+            hits, info = [('container_raised:%s' % type(e).__name__, '%s: %s: %s' % (case['way'], type(e).__name__, str(e)[:200]))], {}
+        st['cases'] += 1
+        st['stores'] += info.get('writes', 0)
+        st['stores_at_or_over_size_limit'] += info.get('writes_at_or_over_limit', 0)
+        st['ways'][case['way']] = st['ways'].get(case['way'], 0) + 1
+        res.count(['container', case], nontrivial=info.get('writes_at_or_over_limit', 0) > 0)
+        for sig, desc in hits:
+            if sig in seen:
+                continue
+            seen.add(sig)
+            c = dict(case)
+            c.update({'sig': sig, 'what': desc})
+            res.violations.append(fw.Violation(sig, desc, c))
+        shutil.rmtree(os.path.dirname(d), ignore_errors=True)
+
+
+# ---------------------------------------------------------------------------
+# FanoutCache bulk removals (cull / expire / evict / clear) that meet a busy shard in the middle: the count they return
+# must be the number of items they removed
+
+
+class ShardLocker:
+    """Another client: raw connections holding the write lock of every shard database."""
+
+    def __init__(self, dirs):
+        self.cons = [sqlite3.connect(os.path.join(sd, 'cache.db'), timeout=0, isolation_level=None) for sd in dirs]
+        self.held = False
+
+    def lock(self):
+        for c in self.cons:
+            c.execute('BEGIN IMMEDIATE')
+        self.held = True
+
+    def release(self):
+        if self.held:
+            for c in self.cons:
+                c.execute('ROLLBACK')
+            self.held = False
+
+    def close(self):
+        self.release()
+        for c in self.cons:
+            c.close()
+
+
+BULK_SPIN_BUDGET = 4000
+
+
+def bulk_contention_case(case, d, stats=None):
+    """FanoutCache(timeout=0) holding more than one page of removable items per shard.  The bulk removal case['op'] runs
+    while, for each (t, k) in case['episodes'], another connection takes the write lock of every shard just before the
+    call's t-th BEGIN and releases it just before its (t+k)-th (so k consecutive attempts fail, whichever shard they hit).
+    Decided from rows read through an independent connection before and after: the returned count is the number of rows
+    that disappeared; cull per shard: the clauses of Monitor; expire: exactly the expired rows; evict: exactly the tagged
+    rows; clear: everything.  Returns (hits, info)."""
+    import sched
+    op, shards, policy = case['op'], case['shards'], case['policy']
+    stats = stats if stats is not None else new_stats()
+    rng = __import__('random').Random(case['seed'])
+    hits = []
+    info = {'begins': 0, 'failed_begins': 0, 'locked': 0, 'partial_before_lock': False}
+    clock = instr.Clock(1000.0)
+    with instr.Installed(clock):
+        total_limit = 2 ** 30
+        fc = diskcache.FanoutCache(os.path.join(d, 'f'), shards=shards, timeout=0, size_limit=total_limit, eviction_policy=policy,
+                                   cull_limit=0, disk_min_file_size=8)
+        sizes = [10, 20, 30, 50, 80] if op == 'cull' else [3]
+        for i in range(case['items']):
+            clock.advance(TICK)
+            r = rng.random()
+            n = rng.choice(sizes)
+            v = ('v' * n) if n >= 8 else i
+            fc.set('k%d' % i, v, expire=(1 if r < case['expiring'] else None), tag=('t' if rng.random() < case['tagged'] else None), retry=True)
+            if policy in ('least-recently-used', 'least-frequently-used') and rng.random() < 0.3:
+                fc.get('k%d' % rng.randrange(i + 1), retry=True)
+        clock.set(clock.now + 10)
+        now = clock.now
+        dirs = [sh.directory for sh in fc._shards]
+        if op == 'cull':
+            # the limit of every shard is lowered so that about case['fraction'] of what the shard stores has to go (several pages of 10)
+            for sh in fc._shards:
+                stored = sum(r[8] for r in seqdrv.observe(sh.directory)[0])
+                sh.reset('size_limit', independent_volume(sh.directory) - int(case['fraction'] * stored))
+        limits = [sh.size_limit for sh in fc._shards]
+        readings = []
+        for sh in fc._shards:
+            rd = []
+            readings.append(rd)
+            inner = sh.volume
+
+            def volume(inner=inner, rd=rd):
+                v = inner()
+                rd.append(v)
+                return v
+            sh.volume = volume
+        for sh in fc._shards:
+            sh.close()
+        befores = [rowdict(seqdrv.observe(sd)[0]) for sd in dirs]
+        tags = [dict((r[0], r[7]) for r in seqdrv.observe(sd)[0]) for sd in dirs]
+        locker = ShardLocker(dirs)
+        takes = dict((t, k) for t, k in case['episodes'])
+        releases = dict((t + k, True) for t, k in case['episodes'])
+        gave_up = []
+
+        def hook(ev):
+            if ev.kind == 'sql' and ev.what == 'BEGIN':
+                info['begins'] += 1
+                b = info['begins']
+                if b in releases and locker.held:
+                    locker.release()
+                if b in takes and not locker.held:
+                    # rows already removed by this call?
+                    gone_now = sum(len([i for i in befores[j] if i not in rowdict(seqdrv.observe(sd)[0])]) for j, sd in enumerate(dirs))
+                    if gone_now:
+                        info['partial_before_lock'] = True
+                    locker.lock()
+                    info['locked'] += 1
+                if locker.held:
+                    info['failed_begins'] += 1
+                    if info['failed_begins'] > BULK_SPIN_BUDGET:
+                        locker.release()
+                        gave_up.append(b)
+        tracer = sched.Tracer(before=hook, clock=clock)
+        result = None
+        try:
+            with tracer:
+                for sh in fc._shards:
+                    sh._con
+                tracer.enable(True)
+                try:
+                    if op == 'cull':
+                        result = fc.cull(retry=case['retry'])
+                    elif op == 'expire':
+                        result = fc.expire(retry=case['retry'])
+                    elif op == 'evict':
+                        result = fc.evict('t', retry=case['retry'])
+                    else:
+                        result = fc.clear(retry=case['retry'])
+                except Exception as e:  # noqa
+                    result = ('raise', type(e).__name__, repr(e.args)[:80])
+                finally:
+                    tracer.enable(False)
+        finally:
+            locker.close()
+        fc.close()
+        afters = [rowdict(seqdrv.observe(sd)[0]) for sd in dirs]
+        label = 'FanoutCache(shards=%d, timeout=0, %s).%s(retry=%s), another connection holding every shard\'s write lock during BEGIN attempts %s' % (
+            shards, policy, op, case['retry'], ', '.join('%d..%d' % (t, t + k - 1) for t, k in case['episodes']))
+        gone = [[befores[j][i] for i in befores[j] if i not in afters[j]] for j in range(shards)]
+        ngone = sum(len(g) for g in gone)
+        if gave_up:
+            hits.append(('fanout_bulk_spins', '%s: still retrying after %d failed BEGIN attempts' % (label, BULK_SPIN_BUDGET)))
+        if isinstance(result, tuple):
+            hits.append(('fanout_bulk_raised', '%s raised %s%s' % (label, result[1], result[2])))
+        elif result != ngone:
+            hits.append(('fanout_bulk_count:%s' % op, '%s returned %r but %d item(s) disappeared (per shard: %r; %d BEGIN attempts failed)'
+                         % (label, result, ngone, [len(g) for g in gone], info['failed_begins'])))
+        for j in range(shards):
+            left = list(afters[j].values())
+            if op == 'cull':
+                mon = Monitor(policy, 0, limits[j], stats)
+                # the policy keys of the rows as stored (the ledger of this monitor starts from the table it finds)
+                for r in befores[j].values():
+                    mon.ledger[r['k']] = {'store': r['store'], 'used': r['access'], 'hits': r['count']}
+                for sig, desc in mon.step('cull', None, now, None, befores[j], afters[j], list(readings[j]), independent_volume(dirs[j])):
+                    hits.append((sig, '%s; shard %d: %s' % (label, j, desc)))
+            elif op == 'expire':
+                bad = [r for r in gone[j] if not (r['exp'] is not None and r['exp'] <= now)]
+                stay = [r for r in left if r['exp'] is not None and r['exp'] < now]
+                if bad:
+                    hits.append(('expire_removed_unexpired', '%s; shard %d: removed the unexpired row key=%r' % (label, j, bad[0]['k'][0])))
+                if stay:
+                    hits.append(('fanout_expire_left_expired', '%s; shard %d: %d expired row(s) left' % (label, j, len(stay))))
+            elif op == 'evict':
+                bad = [r for r in gone[j] if tags[j].get(r['rowid']) != 't']
+                stay = [r for r in left if tags[j].get(r['rowid']) == 't']
+                if bad:
+                    hits.append(('fanout_evict_removed_untagged', '%s; shard %d: removed the untagged row key=%r' % (label, j, bad[0]['k'][0])))
+                if stay:
+                    hits.append(('fanout_evict_left_tagged', '%s; shard %d: %d row(s) with the tag left' % (label, j, len(stay))))
+            elif left:
+                hits.append(('fanout_clear_left_rows', '%s; shard %d: %d row(s) left' % (label, j, len(left))))
+    info['gone'] = ngone
+    info['result'] = result
+    return hits, info
+
+
+def bulk_contention_cases(rng, quick):
+    out = []
+    pols = ['least-recently-stored', 'least-recently-used', 'least-frequently-used', 'none']
+    j = 0
+    for rep in range(1 if quick else 4):
+        for policy in pols:
+            for retry in (False, True):
+                shards = rng.choice([1, 2, 3])
+                # cull pages are 10 rows: ~40 rows per shard, nearly all above the limit
+                eps = [[rng.choice([2, 3, 4]), rng.choice([2, 3, 5])]]
+                if j % 3 == 0:
+                    eps.append([eps[0][0] + eps[0][1] + rng.choice([1, 2]), rng.choice([1, 2])])
+                out.append({'check': 'fanout_bulk_contention', 'op': 'cull', 'shards': shards, 'policy': policy, 'items': 45 * shards,
+                            'expiring': rng.choice([0.0, 0.15, 0.3]), 'tagged': 0.0, 'fraction': rng.choice([0.5, 0.7, 0.9]), 'episodes': eps,
+                            'retry': retry, 'seed': rng.randrange(10 ** 6)})
+                j += 1
+        for op in ('expire', 'evict', 'clear'):
+            for retry in (False, True):
+                shards = rng.choice([1, 2])
+                eps = [[rng.choice([2, 3]), rng.choice([2, 3, 5])]]
+                out.append({'check': 'fanout_bulk_contention', 'op': op, 'shards': shards, 'policy': rng.choice(pols), 'items': 260 * shards,
+                            'expiring': 0.9 if op == 'expire' else 0.1, 'tagged': 0.9 if op == 'evict' else 0.1, 'fraction': 0, 'episodes': eps,
+                            'retry': retry, 'seed': rng.randrange(10 ** 6)})
+    return out
+
+
+def bulk_contention_checks(ctx, res, stats, cases):
+    seen = set(v.sig for v in res.violations)
+    st = stats.setdefault('fanout_bulk_contention', {'cases': 0, 'failed_begin_attempts': 0, 'lock_taken_after_a_committed_page': 0, 'items_removed': 0})
+    for case in cases:
+        d = ctx.scratch('c09b')
+        try:
+            hits, info = bulk_contention_case(case, d, stats)
+        except Exception as e:  # noqa
+            hits, info = [('fanout_bulk_harness:%s' % type(e).__name__, '%s: %s' % (type(e).__name__, str(e)[:200]))], {}
+        st['cases'] += 1
+        st['failed_begin_attempts'] += info.get('failed_begins', 0)
+        st['lock_taken_after_a_committed_page'] += int(bool(info.get('partial_before_lock')))
+        st['items_removed'] += info.get('gone', 0) or 0
+        res.count(['fanout_bulk_contention', case], nontrivial=bool(info.get('partial_before_lock')))
+        for sig, desc in hits:
+            if sig in seen:
+                continue
+            seen.add(sig)
+            c = dict(case)
+            c.update({'sig': sig, 'what': desc})
+            res.violations.append(fw.Violation(sig, desc, c))
+        shutil.rmtree(d, ignore_errors=True)
+
+
+# ---------------------------------------------------------------------------
 # plans
 
 
@@ -810,7 +1249,15 @@ RULE = ('random histories of set/add/get/incr/push/touch/delete/pop/contains/cul
         'rows in.  The table is read after every call; the monitor is evaluated on every call; small-value histories are also replayed through '
         'coq/model (run_cmp: result, rows, counters, files after every call).  FanoutCache(shards 2/3) histories check size_limit/shards per '
         'shard and run the monitor per shard.  evaluations = histories; non-trivial = a history in which at least one row was evicted (by '
-        'expiry inside a write, by policy, or by cull()); distinct by configuration and call list.')
+        'expiry inside a write, by policy, or by cull()); distinct by configuration and call list.  Persistent containers: every way of '
+        'obtaining a Deque / Index (Deque(...), Index(...), fromcache over a policy-none Cache, FanoutCache.deque/index, DjangoCache.deque/index, '
+        'FanoutCache.cache(eviction_policy="none")) must show policy none on the object and in its Settings table, and with size_limit reset to '
+        'volume(empty) + {60..4096}, cull_limit {1,2,10}, 30-160 stores of inline and file-backed values (also after the container is obtained '
+        'again over the same directory) nothing stored may disappear across a store or a cull().  FanoutCache bulk removals under contention: '
+        'cull / expire / evict / clear on FanoutCache(timeout=0, shards 1-3, every policy, retry False/True) with several pages of removable '
+        'items per shard, while a second connection takes every shard\'s write lock just before the call\'s t-th BEGIN (t >= 2: after a committed '
+        'page) and releases it k failed attempts later (one or two such episodes): the returned count must be the number of rows that '
+        'disappeared, and the per-shard clauses of the monitor (expired first, down to the limit, policy order, nothing unexpired under none) hold.')
 
 
 def report(res):
@@ -842,6 +1289,8 @@ def run(ctx):
     directed_cull_histories(ctx, res, stats, ndirected_model, kept)
     directed_cull_histories(ctx, res, stats, ndirected - ndirected_model, None)
     fanout_checks(ctx, res, stats, nfan)
+    container_checks(ctx, res, stats, container_cases(ctx.rng, ctx.quick))
+    bulk_contention_checks(ctx, res, stats, bulk_contention_cases(ctx.rng, ctx.quick))
     witnesses(res)
     if not ctx.search_mode:
         correspondence(ctx, res, stats, kept)
@@ -872,6 +1321,8 @@ def search(ctx, broken):
     monitored_histories(ctx, res, stats, plan)
     directed_cull_histories(ctx, res, stats, 12 if ctx.quick else 36, None)
     fanout_checks(ctx, res, stats, 8 if ctx.quick else 24)
+    container_checks(ctx, res, stats, container_cases(ctx.rng, ctx.quick))
+    bulk_contention_checks(ctx, res, stats, bulk_contention_cases(ctx.rng, ctx.quick))
     witnesses(res)
     report(res)
     return res
@@ -921,6 +1372,22 @@ def replay(payload):
             return ok
         finally:
             ctx.cleanup()
+    if check in ('container', 'fanout_bulk_contention'):
+        d = tempfile.mkdtemp(prefix='c09r-')
+        try:
+            if check == 'container':
+                hits, info = container_case(case, os.path.join(d, 'c'))
+                print('%s, size_limit = volume(empty) + %d, cull_limit %d, disk_min_file_size %d: %d stores (%d of them at or above the size limit)'
+                      % (case['way'], case['rel'], case['cull_limit'], case['min_file_size'], info.get('writes', 0), info.get('writes_at_or_over_limit', 0)))
+            else:
+                hits, info = bulk_contention_case(case, d)
+                print('%s on %d shard(s), %d items: returned %r, %d item(s) disappeared, %d BEGIN attempts (%d failed)'
+                      % (case['op'], case['shards'], case['items'], info.get('result'), info.get('gone', -1), info.get('begins', 0), info.get('failed_begins', 0)))
+            for sig, desc in hits:
+                print('MONITOR [%s]: %s' % (sig, desc))
+            return not hits
+        finally:
+            shutil.rmtree(d, ignore_errors=True)
     if check == 'fanout':
         ctx = fw.Ctx('C09', 'quick', payload.get('seed', 1))
         try:
